@@ -344,7 +344,11 @@ def run(prop, argv=None) -> int:
         "assumptions": prop.ASSUMPTIONS, "wall_s": round(wall, 2), "violations": len(violations),
         "known_findings_reported": sorted(reported_known),
     }
-    json.dump(ev, open(os.path.join(VERIF, "evidence", f"{pid}.json"), "w"), indent=1)
+    evdir = os.path.join(VERIF, "evidence")
+    if a.no_obligations or REPO != "/repo":  # development / mutant trial runs never overwrite the committed evidence
+        evdir = os.path.join(BUILD, "evidence_scratch")
+        os.makedirs(evdir, exist_ok=True)
+    json.dump(ev, open(os.path.join(evdir, f"{pid}.json"), "w"), indent=1)
     for l in known_lines: print(l)
     for l in violations: print(l)
     print(f"{pid}: obligations {ob['discharged']}/{ob['obligations']}, cases {len(cases)} (nontrivial distinct {len(nontrivial)}), "
